@@ -13,7 +13,7 @@ RULE = ("case = event sequence over <=5 scopes and <=4 tasks (creating task, ctx
         "outside any scope, in concurrently running tasks, after the scope completed), record merge in {replace(default), sum, "
         "concatenate, keep-first, raising}, one view merge per case in {replace, sum, concatenate, keep-first, skip-new(returns "
         "MISSING)}; observed: outcome of every record call, read(T) for the 3 types / metrics() / metrics(merge=view) inside "
-        "every completion callback, read(T) at the end; quick ~2500 sampled sequences + corpus, thorough 16x5000; non-trivial = "
+        "every completion callback, read(T) at the end; quick ~6000 sampled sequences + corpus, thorough 16x5000; non-trivial = "
         ">=1 scope with >=2 records of one type folded by a non-replace merge AND (records from >=2 tasks OR a nested scope with "
         "records under a scope with a callback); distinct = by case text")
 TRUSTED = ["harness/metrics_common.py (event language, spec replay, runner, merge function family) + harness/comp_metrics.py monitor",
@@ -251,7 +251,7 @@ def sample(rng) -> str | None:
 
 
 def generate(rng, tier):
-    n = 2500 if tier == "quick" else 16 * 5000
+    n = 6000 if tier == "quick" else 16 * 5000
     for _ in range(n):
         c = sample(rng)
         if c:
